@@ -61,7 +61,7 @@ class _BaseDataContainer(ABC):
             default_value (Any, optional): The default value to fill the attribute with. If not provided, will be taken as the default value of the type `data_type`. Defaults to None.
         """
          # If 'name' already exists in the attribute dict, the corresponding attribute will be overridden
-        if name in self._attr and not config.display_duplicate_attribute_warning:
+        if name in self._attr and config.display_duplicate_attribute_warning: # same rule as create_attribute
             warnings.warn(f"Attribute '{name}' already exists on {self.id}")
         else:
             if len(data.shape)==1: 
@@ -74,7 +74,7 @@ class _BaseDataContainer(ABC):
                 raise Exception(f"data array has invalid shape {data.shape}")
             self._attr[name] = ArrayAttribute(type(data[0,0].item()), n_elem, elem_size=elem_size, default_value=default_value)
             self._attr[name]._data = data
-            return self._attr[name]
+        return self._attr[name]
         
     def delete_attribute(self, name: str):
         """Deletes the attribute associated with name `name` if it exists.
